@@ -235,7 +235,22 @@ inductive PReapOut where
   | dead | kept | err
 deriving DecidableEq, Repr
 
-/-- relocate the record at `at_` of file `fnum`: primary.Put + index.Update + freelist.Put(old) -/
+/-- Index.Relocate: re-point `ik` from `old` to `loc` only if the index still refers to `old` -/
+def idxRelocate (m : Mem) (d : Disk) (ik : Bytes) (old loc : Block) : Except Err Mem :=
+  match bucketOfKey m.bits ik with
+  | none => .error .keyTooShort
+  | some b =>
+    match idxRecords m d b with
+    | .error e => .error e
+    | .ok none => .error .other
+    | .ok (some rl) =>
+      match getRec rl ((stripKey m.bits ik).getD []) with
+      | none => .error .other
+      | some (i, e) =>
+        if e.blk = old then .ok { m with inext := m.inext.set b (normRL (putKeys rl [⟨e.pfx, loc⟩] i (i + 1))) }
+        else .error .other
+
+/-- relocate the record at `at_` of file `fnum`: primary.Put + Index.Relocate + freelist.Put(old) -/
 def relocate (m : Mem) (d : Disk) (fnum : Nat) (file : Bytes) (at_ : Nat) (busySize : Nat) : Option Mem :=
   match readU32 file at_ with
   | none => none
@@ -250,10 +265,11 @@ def relocate (m : Mem) (d : Disk) (fnum : Nat) (file : Bytes) (at_ : Nat) (busyS
         | none => none
         | some ik =>
           let (m, loc) := priPut m key val
-          let m := match idxUpdate m d ik loc with
+          let old : Block := ⟨m.pmax * fnum + at_, busySize⟩
+          let m := match idxRelocate m d ik old loc with
             | .ok m' => m'
             | .error _ => { m with flpool := m.flpool ++ [loc] }
-          some { m with flpool := m.flpool ++ [⟨m.pmax * fnum + at_, busySize⟩] }
+          some { m with flpool := m.flpool ++ [old] }
 
 /-- reapRecords on one primary file: (result, mem, disk, reclaimed bytes) -/
 def reapRecords (m : Mem) (d : Disk) (fnum : Nat) (lowUse : Nat) : PReapOut × Mem × Disk × Nat :=
